@@ -301,6 +301,8 @@ func (r *Run) known(sig string) (Finding, bool) {
 // finding it is only counted; otherwise a replay directory is written (first
 // few per signature) and the run will exit 1.
 func (r *Run) Violate(v Violation) {
+	// signatures are single tokens (they are matched against `sig=` fields of KNOWN_FINDINGS.txt)
+	v.Sig = strings.Join(strings.Fields(v.Sig), "_")
 	r.mu.Lock()
 	defer r.mu.Unlock()
 	if _, ok := r.known(v.Sig); ok {
